@@ -4,6 +4,9 @@ use crate::objs::{envelope, to_hex, Session, Ans, parse_shards};
 use crate::prng::Prng;
 
 pub const SMALL_SIZES: [usize; 10] = [2, 4, 6, 30, 62, 64, 66, 126, 128, 130];
+/// shards of 5 .. 18 blocks of 64 bytes, every residue of the block count modulo 4, with and without a partial
+/// last block (a kernel loop unrolled over several blocks shows its remainder handling only here)
+pub const MULTI_BLOCK_SIZES: [usize; 9] = [258, 320, 322, 384, 448, 450, 576, 706, 1090];
 
 #[derive(Clone, Debug)]
 pub struct Cfg {
